@@ -217,6 +217,12 @@ impl<'a, 'tcx> Ctx<'a, 'tcx> {
                     "unevaluated",
                     J::s(&with_no_trimmed_paths!(tcx.def_path_str(uv.def))),
                 ));
+                // a named `const` item: export its value the way a literal would be printed,
+                // so that `const SEP: &[u8] = b"..";` and the literal itself give the same fact
+                if let Ok(val) = c.const_.eval(tcx, self.tenv, c.span) {
+                    let lit = with_no_trimmed_paths!(format!("{}", Const::Val(val, ty)));
+                    fields.push(("value", J::s(&lit)));
+                }
             }
         }
         J::obj(fields)
